@@ -651,8 +651,8 @@ func runC13(c *Ctx) error {
 		specs = append(specs, spec{5000, 30}, spec{1200, 40}, spec{25, 8}, spec{70, 10})
 	}
 	zero := zeroHashStr
-	exercise := func(name string, ops []string, nStored, nQ int, sample bool) error {
-		t, err := ingest(c, ci, l, name, ops)
+	exercise := func(name string, ops []string, nStored, nQ int, sample bool, from int) error {
+		t, err := ingest(c, ci, l, name, ops[from:])
 		if err != nil {
 			return err
 		}
@@ -758,7 +758,7 @@ func runC13(c *Ctx) error {
 		if sample {
 			c.R.Sample(map[string]any{"store": name, "ops": ops, "locator": out}, 3)
 		}
-			return nil
+		return nil
 	}
 	for sIdx, sp := range specs {
 		// a main chain of sp.n headers with sp.forks short stale branches at (mostly) locator heights
@@ -792,7 +792,7 @@ func runC13(c *Ctx) error {
 		if c.Thorough {
 			nQ = 150
 		}
-		if err := exercise(name, ops, len(nodes), nQ, sIdx == 0); err != nil {
+		if err := exercise(name, ops, len(nodes), nQ, sIdx == 0, 0); err != nil {
 			return err
 		}
 	}
@@ -805,7 +805,20 @@ func runC13(c *Ctx) error {
 	for k := 0; k < nSmall; k++ {
 		n := 4 + rng.Intn(22)
 		_, ops := genStore(rng, n, uint32(7000+k)+uint32(c.Seed)*131)
-		if err := exercise(fmt.Sprintf("forks #%d n=%d", k, n), ops, n, 6, false); err != nil {
+		// every second store in two phases on ONE running service: locator and getheaders on a first part of the history
+		// and again after the rest (later headers, reorganisations) — an answer remembered from before must not survive
+		cut := len(ops) * 6 / 10
+		if k%2 == 0 && cut >= 3 {
+			if err := exercise(fmt.Sprintf("forks #%d n=%d phase 0", k, n), ops[:cut], n, 4, false, 0); err != nil {
+				return err
+			}
+			if err := exercise(fmt.Sprintf("forks #%d n=%d phase 1", k, n), ops, n, 6, false, cut); err != nil {
+				return err
+			}
+			c.R.Count("store:two-phase (queries before and after later ingestion)", 1)
+			continue
+		}
+		if err := exercise(fmt.Sprintf("forks #%d n=%d", k, n), ops, n, 6, false, 0); err != nil {
 			return err
 		}
 		c.R.Count("store:small fork-rich", 1)
@@ -842,7 +855,7 @@ func runC13(c *Ctx) error {
 				order[len(order)-1], order[len(order)-2] = order[len(order)-2], order[len(order)-1]
 			}
 			ops := addsOnly(historyOps(nodes, order, nil, false))
-			if err := exercise(fmt.Sprintf("tip-sibling total=%d lighterFirst=%v", total, rev), ops, len(nodes), 4, false); err != nil {
+			if err := exercise(fmt.Sprintf("tip-sibling total=%d lighterFirst=%v", total, rev), ops, len(nodes), 4, false, 0); err != nil {
 				return err
 			}
 			c.R.Count("store:stale sibling of the tip with fewer digits of cumulative work", 1)
@@ -926,91 +939,108 @@ func runC04(c *Ctx) error {
 	}
 	for sIdx := 0; sIdx < nStores; sIdx++ {
 		n := 4 + rng.Intn(22)
-		_, ops := genStore(rng, n, uint32(sIdx)+uint32(c.Seed)*15485863)
-		name := fmt.Sprintf("store #%d n=%d", sIdx, n)
-		t, err := ingest(c, ci, l, name, ops)
-		if err != nil {
-			return err
+		_, allOps := genStore(rng, n, uint32(sIdx)+uint32(c.Seed)*15485863)
+		// two phases on ONE running service: every query is asked on a first part of the history and again after the
+		// rest has been ingested (later headers, reorganisations) — an answer remembered from before must not survive
+		cut := len(allOps) * 6 / 10
+		if cut < 3 {
+			cut = len(allOps)
 		}
-		digest := tableDigest(ci)
-		ask := func(op string) (string, error) {
-			out, err := both(c, ci, l, name, ops, op)
-			if err == nil && tableDigest(ci) != digest {
-				c.R.Fail(lib.Failure{Case: name, Ops: append(ops, op), What: "a read modified the store", Signature: "c04-store-modified"})
+		for phase, upto := range []int{cut, len(allOps)} {
+			if phase == 1 && cut == len(allOps) {
+				break
 			}
-			if err == nil {
-				c04Check(c, t, name, ops, op, out)
+			ops := allOps[:upto]
+			name := fmt.Sprintf("store #%d n=%d phase %d", sIdx, n, phase)
+			part := allOps[:upto]
+			if phase == 1 {
+				part = allOps[cut:upto]
 			}
-			return out, err
-		}
-		// by hash / state
-		for i := range t.rows {
-			r := &t.rows[i]
-			if _, err := ask("state " + r.Hash); err != nil {
+			t, err := ingest(c, ci, l, name, part)
+			if err != nil {
 				return err
 			}
-			hr := ci.http("GET", "/api/v1/chain/header/state/"+r.Hash, nil, nil)
-			if hr.Status != 200 || !strings.Contains(string(hr.Body), `"state":"`+r.State+`"`) || !strings.Contains(string(hr.Body), fmt.Sprintf(`"height":%d`, r.Height)) {
-				c.R.Fail(lib.Failure{Case: name, Ops: append(append([]string{}, ops...), "GET state/"+r.Hash), What: "state endpoint does not report the stored state/height", Expected: r.State, Observed: string(hr.Body), Signature: "c04-byhash"})
+			c.R.Count(fmt.Sprintf("query battery, phase %d", phase), 1)
+			digest := tableDigest(ci)
+			ask := func(op string) (string, error) {
+				out, err := both(c, ci, l, name, ops, op)
+				if err == nil && tableDigest(ci) != digest {
+					c.R.Fail(lib.Failure{Case: name, Ops: append(ops, op), What: "a read modified the store", Signature: "c04-store-modified"})
+				}
+				if err == nil {
+					c04Check(c, t, name, ops, op, out)
+				}
+				return out, err
 			}
-		}
-		unknown := display(shaStr("unknown" + name))
-		if _, err := ask("state " + unknown); err != nil {
-			return err
-		}
-		if hr := ci.http("GET", "/api/v1/chain/header/"+unknown, nil, nil); hr.Status != 404 {
-			c.R.Fail(lib.Failure{Case: name, Ops: append(append([]string{}, ops...), "GET header/"+unknown), What: "unknown hash is not 404", Expected: "404", Observed: fmt.Sprint(hr.Status), Signature: "c04-byhash"})
-		}
-		// height windows
-		maxH := int64(0)
-		for _, r := range t.rows {
-			if r.Height > maxH {
-				maxH = r.Height
-			}
-		}
-		for h := int64(-1); h <= maxH+1; h++ {
-			for cnt := int64(-1); cnt <= 4; cnt++ { // incl. count 0 and a negative count: empty windows
-				if _, err := ask(fmt.Sprintf("byheight %d %d", h, cnt)); err != nil {
+			// by hash / state
+			for i := range t.rows {
+				r := &t.rows[i]
+				if _, err := ask("state " + r.Hash); err != nil {
 					return err
 				}
-			}
-		}
-		// tips
-		if _, err := ask("tips"); err != nil {
-			return err
-		}
-		tl := ci.http("GET", "/api/v1/chain/tip/longest", nil, nil)
-		if tl.Status != 200 || !strings.Contains(string(tl.Body), `"hash":"`+t.best.Hash+`"`) {
-			c.R.Fail(lib.Failure{Case: name, Ops: append(append([]string{}, ops...), "GET tip/longest"), What: "tip/longest is not the longest tip", Expected: t.best.Hash, Observed: string(tl.Body), Signature: "c04-tips"})
-		}
-		// ancestors
-		pairs := 0
-		for i := range t.rows {
-			for j := range t.rows {
-				if len(t.rows) > 12 && rng.Intn(len(t.rows)*len(t.rows)/140+1) != 0 {
-					continue
+				hr := ci.http("GET", "/api/v1/chain/header/state/"+r.Hash, nil, nil)
+				if hr.Status != 200 || !strings.Contains(string(hr.Body), `"state":"`+r.State+`"`) || !strings.Contains(string(hr.Body), fmt.Sprintf(`"height":%d`, r.Height)) {
+					c.R.Fail(lib.Failure{Case: name, Ops: append(append([]string{}, ops...), "GET state/"+r.Hash), What: "state endpoint does not report the stored state/height", Expected: r.State, Observed: string(hr.Body), Signature: "c04-byhash"})
 				}
-				if _, err := ask(fmt.Sprintf("ancestors %s %s", t.rows[j].Hash, t.rows[i].Hash)); err != nil {
-					return err
-				}
-				pairs++
 			}
-		}
-		c.R.Count("ancestors-pairs", pairs)
-		// common ancestor
-		for q := 0; q < 25; q++ {
-			k := 2 + rng.Intn(2)
-			var hs []string
-			for i := 0; i < k; i++ {
-				hs = append(hs, t.rows[rng.Intn(len(t.rows))].Hash)
-			}
-			if _, err := ask("common " + strings.Join(hs, " ")); err != nil {
+			unknown := display(shaStr("unknown" + name))
+			if _, err := ask("state " + unknown); err != nil {
 				return err
 			}
-			c.R.Count("common", 1)
-		}
-		if sIdx == 0 {
-			c.R.Sample(map[string]any{"store": name, "ops": ops, "queries": "state/byheight/tips/ancestors/common"}, 3)
+			if hr := ci.http("GET", "/api/v1/chain/header/"+unknown, nil, nil); hr.Status != 404 {
+				c.R.Fail(lib.Failure{Case: name, Ops: append(append([]string{}, ops...), "GET header/"+unknown), What: "unknown hash is not 404", Expected: "404", Observed: fmt.Sprint(hr.Status), Signature: "c04-byhash"})
+			}
+			// height windows
+			maxH := int64(0)
+			for _, r := range t.rows {
+				if r.Height > maxH {
+					maxH = r.Height
+				}
+			}
+			for h := int64(-1); h <= maxH+1; h++ {
+				for cnt := int64(-1); cnt <= 4; cnt++ { // incl. count 0 and a negative count: empty windows
+					if _, err := ask(fmt.Sprintf("byheight %d %d", h, cnt)); err != nil {
+						return err
+					}
+				}
+			}
+			// tips
+			if _, err := ask("tips"); err != nil {
+				return err
+			}
+			tl := ci.http("GET", "/api/v1/chain/tip/longest", nil, nil)
+			if tl.Status != 200 || !strings.Contains(string(tl.Body), `"hash":"`+t.best.Hash+`"`) {
+				c.R.Fail(lib.Failure{Case: name, Ops: append(append([]string{}, ops...), "GET tip/longest"), What: "tip/longest is not the longest tip", Expected: t.best.Hash, Observed: string(tl.Body), Signature: "c04-tips"})
+			}
+			// ancestors
+			pairs := 0
+			for i := range t.rows {
+				for j := range t.rows {
+					if len(t.rows) > 12 && rng.Intn(len(t.rows)*len(t.rows)/140+1) != 0 {
+						continue
+					}
+					if _, err := ask(fmt.Sprintf("ancestors %s %s", t.rows[j].Hash, t.rows[i].Hash)); err != nil {
+						return err
+					}
+					pairs++
+				}
+			}
+			c.R.Count("ancestors-pairs", pairs)
+			// common ancestor
+			for q := 0; q < 25; q++ {
+				k := 2 + rng.Intn(2)
+				var hs []string
+				for i := 0; i < k; i++ {
+					hs = append(hs, t.rows[rng.Intn(len(t.rows))].Hash)
+				}
+				if _, err := ask("common " + strings.Join(hs, " ")); err != nil {
+					return err
+				}
+				c.R.Count("common", 1)
+			}
+			if sIdx == 0 {
+				c.R.Sample(map[string]any{"store": name, "ops": ops, "queries": "state/byheight/tips/ancestors/common"}, 3)
+			}
 		}
 	}
 	c.R.ModelOps = l.Ops
